@@ -119,6 +119,8 @@ type scnRun struct {
 	samples    []Sample
 	viol       map[string]*Violation
 	stopped    bool
+	active     bool
+	unbounded  bool // the last pass pruned nothing: all interleavings explored
 	direct     *DirectReport
 }
 
@@ -386,15 +388,38 @@ func (m *master) run(evPath, knownPath, cxdir, only string, pbOver int) int {
 		}
 	}
 	// iterative preemption bounding
-	for pass := 0; pass <= maxPB && infra == ""; pass++ {
+	var passes []int
+	for b := 0; b <= maxPB; b++ {
+		if b <= 3 || b == maxPB || maxPB <= 6 {
+			passes = append(passes, b)
+		}
+	}
+	for _, r := range runs {
+		if r.b.PB > 3 && r.b.PB < maxPB && maxPB > 6 {
+			passes = append(passes, r.b.PB)
+		}
+	}
+	sort.Ints(passes)
+	for pi, pass := range passes {
+		if pi > 0 && passes[pi-1] == pass {
+			continue
+		}
+		if infra != "" {
+			break
+		}
 		if pass > 0 && time.Now().After(m.deadline) {
 			break
 		}
 		active := 0
 		for _, r := range runs {
+			r.active = false
 			if r.s.Direct != nil || pass > r.b.PB || r.stopped {
 				continue
 			}
+			if r.b.PB > 3 && maxPB > 6 && pass > 3 && pass != r.b.PB {
+				continue
+			}
+			r.active = true
 			r.pass = pass
 			r.passStats = Stats{}
 			r.queue = [][]int32{{}}
@@ -419,7 +444,7 @@ func (m *master) run(evPath, knownPath, cxdir, only string, pbOver int) int {
 						}
 						pending := false
 						for _, c := range runs {
-							if c.s.Direct != nil || pass > c.b.PB || c.stopped {
+							if !c.active {
 								continue
 							}
 							if len(c.queue) > 0 && c.incomplete == "" {
@@ -527,13 +552,19 @@ func (m *master) run(evPath, knownPath, cxdir, only string, pbOver int) int {
 		}
 		wg.Wait()
 		for _, r := range runs {
-			if r.s.Direct != nil || pass > r.b.PB || r.stopped {
+			if !r.active {
 				continue
 			}
 			r.total.Add(&r.passStats)
 			if r.incomplete == "" {
 				r.completed = pass
 				r.lastStats = r.passStats
+				if r.passStats.Pruned == 0 {
+					// nothing was cut by the bound: every interleaving has been explored
+					r.unbounded = true
+					r.completed = r.b.PB
+					r.stopped = true
+				}
 			} else {
 				if r.completed < 0 {
 					r.lastStats = r.passStats
@@ -855,7 +886,7 @@ func (m *master) writeEvidence(path string, runs []*scnRun, nviol int) {
 			"distinct_outcomes": len(r.total.Finger), "end_histogram": ends,
 			"max_points_per_execution": r.lastStats.MaxPts, "max_threads": r.lastStats.MaxThr,
 			"determinism_reruns": r.total.Verified, "horizon_hits": r.total.Horizon,
-			"incomplete_reason": r.incomplete, "exhaustive_within_bound": ex,
+			"incomplete_reason": r.incomplete, "exhaustive_within_bound": ex, "all_interleavings_explored": r.unbounded, "alternatives_pruned_by_bound": r.lastStats.Pruned,
 			"violating_oracles": len(r.viol),
 		})
 	}
@@ -918,6 +949,9 @@ func (m *master) summary(runs []*scnRun) {
 		inc := ""
 		if r.incomplete != "" {
 			inc = " INCOMPLETE(" + r.incomplete + ")"
+		}
+		if r.unbounded {
+			inc += " ALL-INTERLEAVINGS"
 		}
 		fmt.Printf("%-26s pb=%d/%d execs=%d (last pass %d) nodes=%d points=%d outcomes=%d ends=%v maxpts=%d thr=%d%s\n", r.s.Name, r.completed, r.b.PB, r.total.Execs, r.lastStats.Execs, r.lastStats.Nodes, r.lastStats.Points, len(r.total.Finger), r.lastStats.Ends, r.lastStats.MaxPts, r.lastStats.MaxThr, inc)
 	}
